@@ -196,6 +196,12 @@ DeliverTagsD(pre, c, e, post, newC, r, cc, d) ==
     IN     (IF d # {} \/ ok # r.ok \/ newC # r.c THEN {IF splitOnly THEN "C26" ELSE own} ELSE {})
             \cup (IF "supply" \in d THEN {"C17"} ELSE {})
             \cup (IF BalOf(post, FEE) # BalOf(r.s, FEE) THEN {"C15"} ELSE {})
+            \* C15 "from the signer": some account is off by exactly the declared fee (the fee was taken from,
+            \* or left with, another account than the one that signed)
+            \cup (IF tx.fee > 0 /\ "bal" \in d
+                     /\ \E a \in (DOMAIN post.bal \cup DOMAIN r.s.bal) \ {FEE} :
+                           BalOf(post, a) - BalOf(r.s, a) \in {tx.fee, 0 - tx.fee}
+                    THEN {"C15"} ELSE {})
             \cup (IF tx.fee < RequiredFee(cc, tx) THEN {IF tx.multisig THEN KnownOr("F-C15-multisig", "C15") ELSE "C15"} ELSE {})
             \cup (IF tx.dup = "reencoded" /\ tx.priorEffect /\ post # pre THEN {KnownOr("F-C16", "C16")} ELSE {})
             \cup (IF d \cap {"tmSet", "prevPower", "prevTotal"} # {} THEN {"C22"} ELSE {})
